@@ -34,8 +34,10 @@ def models(tier):
     if tier == "quick":
         return [("content", cfg(MaxLev=2, MaxBox=2, MaxFile=2)),
                 ("schedules", cfg(MaxLev=1, MaxBox=3, MaxFile=3, SchedMode='"all"')),
-                ("per-species recipe over all species", cfg(MaxLev=1, MaxBox=2, MaxFile=2, NNewSet="{10}"))]
+                ("per-species recipe over all species", cfg(MaxLev=1, MaxBox=2, MaxFile=2, NNewSet="{10}")),
+                ("three new components", cfg(MaxLev=1, MaxBox=2, MaxFile=2, NNewSet="{3}"))]
     return [("content", cfg(MaxLev=2, MaxBox=3, MaxFile=2)),
+            ("three new components", cfg(MaxLev=1, MaxBox=2, MaxFile=2, NNewSet="{3}")),
             ("schedules", cfg(MaxLev=2, MaxBox=3, MaxFile=3, SchedMode='"all"', W=3)),
             ("per-species recipe over all species", cfg(MaxLev=2, MaxBox=2, MaxFile=2, NNewSet="{10}"))]
 
@@ -47,6 +49,25 @@ RECIPES = {"u1": (1, False), "c1": (1, False), "u2": (2, False),
            "SRiall": (10, True), "SDiall": (10, True)}
 SP2 = ["O2", "H2"]
 RX2 = [3, 0]
+
+
+def split_recipe(recipe):
+    """'SRi@H,O2' -> ('SRi', ['H', 'O2']);  'RRi@3,0' -> ('RRi', [3, 0]);  'u1' -> ('u1', None)"""
+    if "@" not in recipe:
+        return recipe, None
+    kind, lst = recipe.split("@")
+    items = lst.split(",")
+    return kind, ([int(x) for x in items] if kind == "RRi" else items)
+
+
+def nnew_of(recipe):
+    kind, sel = split_recipe(recipe)
+    return len(sel) if sel is not None else RECIPES[recipe][0]
+
+
+def thermo_of(recipe):
+    kind, sel = split_recipe(recipe)
+    return True if sel is not None else RECIPES[recipe][1]
 
 
 def thermo_values(cfgseed):
@@ -80,11 +101,19 @@ def new_expected(recipe, arrs, shape, thermo, pressure=None):
     gas = ct.Solution(MECH)
     T = arrs[1].reshape(shape, order="F")
     Y = np.stack([arrs[2 + k].reshape(shape, order="F") for k in range(len(SPECIES))], axis=-1)
-    nout = RECIPES[recipe][0]
+    nout = nnew_of(recipe)
+    kind_, sel_ = split_recipe(recipe)
     out = [np.empty(shape) for _ in range(nout)]
     for ijk in np.ndindex(*shape):
         gas.TPY = T[ijk], (pressure or PRESSURE_ATM) * ct.one_atm, Y[ijk]
-        if recipe == "s1":
+        if sel_ is not None:
+            if kind_ == "SRi":
+                vals = [gas.net_production_rates[gas.species_index(x)] for x in sel_]
+            elif kind_ == "SDi":
+                vals = [gas.mix_diff_coeffs_mass[gas.species_index(x)] for x in sel_]
+            else:
+                vals = [gas.net_rates_of_progress[r] for r in sel_]
+        elif recipe == "s1":
             vals = [gas.density_mass]
         elif recipe in ("s2", "cs2"):
             vals = [gas.density_mass, gas.cp_mass]
@@ -112,9 +141,16 @@ def new_expected(recipe, arrs, shape, thermo, pressure=None):
 def chef_kwargs(recipe, pressure=None):
     """(recipe argument, extra kwargs, names of the new fields as the tool must store them)"""
     kw = {}
-    thermo = RECIPES[recipe][1]
+    thermo = thermo_of(recipe)
     if thermo:
         kw.update(mech=MECH, pressure=pressure or PRESSURE_ATM)
+    kind_, sel_ = split_recipe(recipe)
+    if sel_ is not None:
+        if kind_ == "RRi":
+            kw["reactions"] = list(sel_)
+            return "RRi", kw, ["R%d" % r for r in sel_]
+        kw["species"] = list(sel_)
+        return kind_, kw, [("IRm(%s)" if kind_ == "SRi" else "DI(%s)") % x for x in sel_]
     if recipe in ("u1", "u2", "s1", "s2"):
         return os.path.join(RECDIR, "r_%s.py" % recipe), kw, ["new1", "new2"][:RECIPES[recipe][0]]
     if recipe == "c1":
@@ -156,7 +192,7 @@ def close(a, b, thermo):
 def run_scenario(chk, sc, cfgseed, recipe, flavour="sched", workers=None, pressure=None, serial=None):
     from amr_kitchen.chef import Chef
     from amr_kitchen.taste import Taster
-    thermo = RECIPES[recipe][1]
+    thermo = thermo_of(recipe)
     rng = random.Random(cfgseed)
     cfg_ = gamma.Config.draw(rng, ndims=3, payload="tame")
     fields = THERMO_FIELDS if thermo else list(sc["fields"])
@@ -292,8 +328,45 @@ def run_histories(chk, scenarios):
             chk.violation(sig, "cook %d of the history %s in one process: %s" % (k + 1, core.jdump(h), v), {"history": h})
 
 
+def selection_phase(chk, scenarios):
+    """ChefSel.tla: every duplicate-free selection (in any order) of species / reactions for SRi, SDi, RRi."""
+    r = chk.add_tlc(tlc.run("ChefSel", {"INIT": "Init", "NEXT": "Next", "CONSTANTS": {"NS": 5, "MaxSel": 3, "IndexMode": '"list"'},
+                                        "INVARIANTS": ["OwnName", "Emit"]}, workers=4, timeout=600), "species / reaction selections")
+    if r.violated:
+        chk.note_drift("TLC: %s violated in ChefSel.tla" % r.violated)
+    sels = [e for e in r.emitted if isinstance(e, dict) and e.get("prop") == "ChefSel"]
+    if not sels:
+        raise core.MachineryError("TLC emitted no selection")
+    # abstract species 1..5 -> a consecutive block of the mechanism (so that "consecutive" selections are consecutive there)
+    block = SPECIES[1:6]                       # H, O, O2, OH, H2O
+    rblock = [2, 3, 4, 5, 6]                   # five consecutive reactions
+    by_n = {}
+    for sc in sorted(scenarios, key=core.jdump):
+        if sc["kept"] in ([], ["a"]) and len(sc["levels"]) == 1:
+            by_n.setdefault(sc["nnew"], []).append(sc)
+    sels.sort(key=core.jdump)
+    chosen = util.select(sels, 24 if chk.tier == "quick" else 400, chk.rng)
+    for i, e in enumerate(chosen):
+        sel = list(e["sel"])
+        fam = ["SRi", "SDi", "RRi"][i % 3]
+        recipe = "%s@%s" % (fam, ",".join(str(rblock[k - 1]) if fam == "RRi" else block[k - 1] for k in sel))
+        base = by_n.get(len(sel))
+        if not base:
+            raise core.MachineryError("no C11 scenario adding %d components" % len(sel))
+        sc = base[i % len(base)]
+        cfgseed = chk.rng.randrange(1 << 30)
+        v = run_scenario(chk, sc, cfgseed, recipe)
+        sigs = util.sig_str("selection", fam, e["sig"])
+        chk.executed(sigs, True, sample={"recipe": recipe})
+        chk.traces += 1
+        if v:
+            chk.violation(sigs, v, {"sc": sc, "cfgseed": cfgseed, "recipe": recipe, "sigs": sigs})
+
+
 def pick_recipe(nnew, i, tier):
     fam = [r for r, (n, t) in sorted(RECIPES.items()) if n == nnew]
+    if not fam and nnew == 3:
+        return ["SRi@OH,H,O2", "SDi@H2O,O,H", "RRi@5,1,3"][i % 3]
     plain = [r for r in fam if not RECIPES[r][1]]
     if not plain:
         return fam[i % len(fam)]
@@ -342,6 +415,10 @@ def run(chk, replay):
         if v:
             chk.violation(sigs, v, {"sc": sc, "cfgseed": cfgseed, "recipe": recipe, "sigs": sigs})
     run_histories(chk, scenarios)
+    selection_phase(chk, scenarios)
     # code -> spec: cooks (user recipe, serial and parallel) recorded on large generated plotfiles (Chef!CookSpecG in OpTrace.tla)
     from harness import optrace
     optrace.phase(chk, ["cook", "cook", "strain"], "chef on large inputs", 40, 400, twod=False, nops=3)
+    # the command line layer (spec/Cli.tla): every subset of the tool's options typed to the real main(), API intercepted
+    from harness import cli
+    cli.phase(chk, "chef")
